@@ -1,7 +1,7 @@
 #!/bin/bash
 # Runs every seeded change against the check(s) named in its meta.json (property + also_breaks that are marked as catching)
 # and prints one line per (seed, check): DETECTED / MISSED. Applies each patch to /repo and reverts it.
-cd /verif
+cd ${VERIF_DIR:-/verif}
 for d in ${SEEDS:-seeded/*/}; do
   id=$(basename $d)
   checks=$(python3 - "$d" <<'PY'
